@@ -47,10 +47,26 @@
 (*   "X" a value slot holds objects of different kinds (== across kinds is *)
 (*       out of scope and raises TypeError by design): F or raising        *)
 (*       accepted, T is not.                                               *)
+(*                                                                         *)
+(* Lexical case of names.  The base `b` of a name is its class under       *)
+(* simple lower-casing: two spellings with the same base differ ONLY in    *)
+(* lexical case and the statement demands that they are not distinguished. *)
+(* Outside ASCII there are spellings that full Unicode case folding        *)
+(* identifies although lower-casing does not ("Straße" / "STRASSE", final  *)
+(* sigma, long s).  Whether such a pair "differs only in lexical case" is  *)
+(* not decided by the statement: FoldOf(b) is the class under full case    *)
+(* folding, and two names with different bases in the same fold class      *)
+(* compare "U" (either answer accepted, but every law - symmetry,          *)
+(* negation, a == b => equal hash, membership - still binds the answer     *)
+(* actually given).  The same holds for the keys of a bag.                 *)
 (***************************************************************************)
 EXTENDS Naturals, Sequences, FiniteSets, TLC
 
 NoName == [b |-> "", c |-> 0]
+
+(* special-fold name classes: base "n6s" (e.g. "STRASSE") folds to the    *)
+(* class of base "n6" (e.g. "Straße") under full case folding only        *)
+FoldOf(b) == IF b = "n6s" THEN "n6" ELSE b
 
 IsBag(k, g) ==
   CASE k = "InstanceName" -> TRUE
@@ -78,7 +94,8 @@ Comb(S) == IF "X" \in S THEN "X"
            ELSE IF "F" \in S THEN "F"
            ELSE IF "U" \in S THEN "U" ELSE "T"
 
-NameEq(x, y) == IF x.b = y.b THEN "T" ELSE "F"
+NameEq(x, y) == IF x.b = y.b THEN "T"
+                ELSE IF FoldOf(x.b) = FoldOf(y.b) THEN "U" ELSE "F"
 
 AtEq(k, i, x, y) ==
   IF x = y THEN "T"
@@ -101,9 +118,13 @@ RECURSIVE AbsEq(_, _), GroupEq(_, _, _, _)
 GroupEq(k, g, ga, gb) ==
   IF Len(ga) # Len(gb) THEN "F"
   ELSE IF IsBag(k, g)
-  THEN Comb({ LET m == {j \in 1..Len(gb) : gb[j].key.b = ga[i].key.b} IN
-              IF m = {} THEN "F"
-              ELSE AbsEq(ga[i].n, gb[CHOOSE j \in m : TRUE].n)
+  THEN Comb({ LET m == {j \in 1..Len(gb) : gb[j].key.b = ga[i].key.b}
+                  mf == {j \in 1..Len(gb) :
+                           FoldOf(gb[j].key.b) = FoldOf(ga[i].key.b)} IN
+              IF m # {} THEN AbsEq(ga[i].n, gb[CHOOSE j \in m : TRUE].n)
+              ELSE IF mf # {}      \* keys equal under full case folding only
+              THEN Comb({"U", AbsEq(ga[i].n, gb[CHOOSE j \in mf : TRUE].n)})
+              ELSE "F"
               : i \in 1..Len(ga) })
   ELSE Comb({ AbsEq(ga[i].n, gb[i].n) : i \in 1..Len(ga) })
 
@@ -126,7 +147,8 @@ AbsEq(a, b) ==
 (* mode "strict": kernel of AbsEq = "T" (finest admissible ==)             *)
 (* mode "loose" : coarsest admissible == (every "U" pair identified)       *)
 (* mode "py"    : what Python value semantics do today (numbers by value,  *)
-(*                datetimes by instant, None distinct from a default)      *)
+(*                datetimes by instant, None distinct from a default,      *)
+(*                names by lower(), dictionary keys by casefold())         *)
 (* AbsHashClass is the loose canon: a lawful hash may be any function of   *)
 (* it that is constant on the classes of the == actually implemented.      *)
 (***************************************************************************)
@@ -139,14 +161,17 @@ Canon(n, mode, gtag, ptag) ==
         ELSE IF n.k = "DateTime"
         THEN IF mode = "strict" THEN <<n.at[1], n.at[2], n.at[3], n.at[4]>>
              ELSE <<n.at[1], n.at[2]>>
-        ELSE [i \in 1..Len(n.nm) |-> n.nm[i].b]
+        ELSE [i \in 1..Len(n.nm) |->
+                IF mode = "loose" THEN FoldOf(n.nm[i].b) ELSE n.nm[i].b]
              \o [i \in 1..Len(n.at) |->
                    IF mode = "loose" /\ n.at[i] = "none"
                       /\ DefaultOf(n.k, i) # ""
                    THEN DefaultOf(n.k, i) ELSE n.at[i]]
   IN [t |-> n.k, g |-> gtag, p |-> ptag, s |-> payload,
       kids |-> UNION { { Canon(n.ch[g][i].n, mode, ToString(g),
-                               IF IsBag(n.k, g) THEN n.ch[g][i].key.b
+                               IF IsBag(n.k, g)
+                               THEN IF mode = "strict" THEN n.ch[g][i].key.b
+                                    ELSE FoldOf(n.ch[g][i].key.b)
                                ELSE ToString(i))
                          : i \in 1..Len(n.ch[g]) } : g \in 1..Len(n.ch) }]
 
